@@ -173,6 +173,7 @@ def world_canon(w, extra=None, with_db=True) -> tuple:
             _s(pool.max_future_offset),
             _s(getattr(pool, '_prev_runahead_base_point', None)),
             _s(getattr(pool, 'stop_task_id', None)),
+            bool(getattr(pool, 'stop_task_finished', False)),
         )
         sm = schd.stop_mode
         bm = schd.broadcast_mgr
